@@ -24,8 +24,9 @@ TRUSTED_BASE = [
     "run of this file (kernel level on the compiled kernels, API level on every public function)",
     "Spec/NpSort.v as a description of numpy.sort/argmax/argmin/unique_values/unique_counts/nonzero/argwhere "
     "(and of the Array-API `descending` flag), cross-checked against NumPy on every generated case",
-    "wrapper-level equality model = Spec (moveaxis/reshape/transpose/squeeze plumbing of sort and argmax/argmin) "
-    "is established by correspondence only; the theorems are about the kernels and the set functions",
+    "wrapper-level equality model = Spec is PROVED for sort on 1-d and 2-d inputs (every valid axis) and for "
+    "argmax/argmin on 2-d inputs along the first axis (both keepdims); the remaining plumbing paths (sort on >2-d, "
+    "argmax/argmin with axis=None, along the last axis, on 1-d and >2-d inputs) are established by correspondence only",
     "correspondence harness tools/props/c10.py, tools/vlib.py, Corr/C10Judge.v, Corr/SArr.v",
 ]
 ASSUMPTIONS = [
@@ -41,18 +42,10 @@ IMPORTS = "From Verif Require Import Py Shape COO GCXS SArr NpSort SortSearch C1
 VALUES = list(range(-3, 6))
 FILLS = [-4, 0, 2, 6]
 CLAUSES = {
-    1: "D18_sort_len1_1d",
-    2: "D18_sort_len0_axis",
-    3: "D17_arg_1d_negative_axis",
-    4: "D17_arg_zero_size",
-    5: "D17_arg_squeeze_other_singleton",
-    6: "D17_arg_keepdims_negative_axis",
     7: "arg_unpruned_tie_with_fill",
     8: "unique_values_unpruned",
     10: "unique_counts_unpruned",
     11: "nonzero_unpruned",
-    12: "D17_arg_1d_keepdims",
-    13: "sort_1d_axis_unchecked",
 }
 
 
@@ -114,6 +107,11 @@ def impl_api(case):
         except Exception as ex:  # noqa: BLE001
             out.append(vlib.plain(ex))
     return out
+
+
+def impl_any(case):
+    kind, c = case
+    return {"api": impl_api, "sortk": impl_sortk, "minmaxk": impl_minmaxk}[kind](c)
 
 
 # ------------------------------------------------------------------ generators
@@ -237,14 +235,16 @@ def gen_api(rng, tier):
     shapes3 = list(itertools.product(ext, ext, ext))
     if tier == "quick":
         shapes3 = rng.sample([s for s in shapes3 if 0 not in s], 20) + rng.sample([s for s in shapes3 if 0 in s], 6)
-        per = {1: 12, 2: 8, 3: 4}
+        per = {1: 12, 2: 6, 3: 3}
         per_unpruned = {1: 4, 2: 2, 3: 1}
+        shapes4 = []
     else:
-        per = {1: 40, 2: 24, 3: 8}
-        per_unpruned = {1: 10, 2: 5, 3: 2}
+        shapes4 = rng.sample(list(itertools.product([1, 2, 3], repeat=4)), 40) + [(2, 0, 1, 3), (1, 1, 1, 1)]
+        per = {1: 60, 2: 30, 3: 10, 4: 3}
+        per_unpruned = {1: 12, 2: 6, 3: 3, 4: 1}
     patterns = ["lines", "lines", "half", "sparse", "full", "empty"]
     arrays = []
-    for sh in shapes1 + shapes2 + shapes3:
+    for sh in shapes1 + shapes2 + shapes3 + shapes4:
         if 0 in sh:                                # nothing can be stored: one array per shape is enough
             arrays.append((gen_spec(rng, sh, rng.choice(FILLS), "empty", False), "coo"))
             continue
@@ -256,7 +256,7 @@ def gen_api(rng, tier):
         for i in range(per_unpruned[len(sh)]):
             arrays.append((gen_spec(rng, sh, rng.choice(FILLS), rng.choice(["lines", "half", "full"]), True), "coo"))
     # other formats (pruned inputs only)
-    extra = rng.sample(shapes1[1:] + shapes2 + shapes3, 24 if tier == "quick" else 80)
+    extra = rng.sample(shapes1[1:] + shapes2 + shapes3 + shapes4, 24 if tier == "quick" else 120)
     for sh in extra:
         fmt = rng.choice(["gcxs", "dok"])
         arrays.append((gen_spec(rng, sh, rng.choice(FILLS), rng.choice(patterns), False, fmt), fmt))
@@ -400,9 +400,10 @@ def campaign(build, tier, seed, report, budget=1):
     sk = gen_sortk(rng, nk)
     mk = gen_minmaxk(rng, nk)
     api = gen_api(rng, tier)
-    rsk = vlib.run_impl("props.c10", "impl_sortk", sk, workers=6)
-    rmk = vlib.run_impl("props.c10", "impl_minmaxk", mk, workers=6)
-    rapi = vlib.run_impl("props.c10", "impl_api", api, workers=6, per_case_timeout=60.0)
+    # one worker pool for everything (each worker pays the import and the JIT compilation once)
+    allc = [("api", c) for c in api] + [("sortk", c) for c in sk] + [("minmaxk", c) for c in mk]
+    rall = vlib.run_impl("props.c10", "impl_any", allc, workers=6, per_case_timeout=60.0)
+    rapi, rsk, rmk = rall[:len(api)], rall[len(api):len(api) + len(sk)], rall[len(api) + len(sk):]
 
     lits = []
     for c, r in zip(sk, rsk, strict=True):
@@ -467,6 +468,17 @@ def campaign(build, tier, seed, report, budget=1):
             v["also_differs_from_model"] = True
         viol.append(v)
         tag("verdict:" + (clause or kind))
+
+    # report the most readable witness of each class first: no zero extents, about six elements
+    def nice(v):
+        sh = v["case"].get("array", {}).get("shape")
+        if sh is None:
+            return (0, 0, 0)
+        size = 1
+        for d in sh:
+            size *= d
+        return (1, 0 in sh, abs(size - 6))
+    viol.sort(key=nice)
 
     cov = report["coverage"]
     cov["evaluations"] = len(sk) + len(mk) + len(flat)
